@@ -77,6 +77,12 @@ CHECKS.update({
          "pflag's own StringSlice flag is judged with CSV text and its bracketed default text (third-party format); named slice/map types get no flag and are not generated",
          "DESIGN.md section 4 C12"),
 })
+CHECKS.update({
+ 'C14': ("runtime pattern oracle: per aliased leaf one of neither/primary/alias/both is supplied through the real env source, both flag sources, alias-wrapped JSON/YAML/TOML/Cue decoders and the ez entry points; expected unset/value/value/error-naming-the-field",
+         "Seeded config types with alias tags (dialsalias and the source-specific alias tags, with explicit and implicit primary names) on random subsets of leaves at depth 1-3; names of primaries and aliases are computed from the generator's word lists; the four patterns are drawn independently per aliased leaf and supplied through every alias-capable source; results are stacked by the real compose and compared with the reference layer, and a both-set case must yield an error that contains the Go field name. A static type goes through the ez entry points with and without a FileFieldNameEncoder.",
+         "alias tags on leaves only; fields with both an alias tag and a format-specific tag are not generated; file-family values are restricted to ones all four formats carry (value handling is C13's subject)",
+         "DESIGN.md section 4 C14"),
+})
 NOT_YET = "check not yet built in this session (planned in DESIGN.md section 4; the technique applies)"
 
 def main():
